@@ -62,6 +62,10 @@ def mk_reference(rid):
         r.pubmed_id = str(1000 + int(rid))
     else:
         r.title = "Direct Submission"
+    if int(rid) % 3 != 1:
+        # as parsed from GenBank ("REFERENCE 1 (bases 1 to N)"): a span in the coordinates of the source record
+        from Bio.SeqFeature import FeatureLocation
+        r.location = [FeatureLocation(0, 10 + int(rid))]
     return r
 
 
